@@ -58,18 +58,16 @@ func (r *CheckRun) runReplay(rs *ReplaySpec, replayPath string) (bool, string) {
 
 func (r *CheckRun) tryReplay(a *AggObl, replayPath string) bool {
 	if a.failing != nil && a.failing.Replay == nil {
-		a.failing.Replay = r.modelReplay(a)
+		a.failing.Replay = r.modelReplay(a, nil)
 		if a.failing.Replay != nil {
 			if ok, _ := r.runReplay(a.failing.Replay, replayPath+".first"); !ok {
 				// the solver's (possibly partial) model does not fail on the real code: look for a candidate
 				// input with the quantified hypotheses dropped
-				if m := r.candidateModel(a); m != "" {
-					keep := a.failing.Model
-					a.failing.Model = m
-					if rs := r.modelReplay(a); rs != nil {
+				if vals := r.candidateValues(a); vals != nil {
+					if rs := r.modelReplay(a, vals); rs != nil {
 						a.failing.Replay = rs
+						a.failing.Model += fmt.Sprintf("\n--- candidate input (quantified hypotheses dropped): %v ---\n", vals)
 					}
-					a.failing.Model = keep + "\n--- candidate model (quantified hypotheses dropped) ---\n" + trunc2(m, 3000)
 				}
 			}
 		}
@@ -90,9 +88,9 @@ func (r *CheckRun) tryReplay(a *AggObl, replayPath string) bool {
 // modelReplay turns the solver's counterexample of a refuted safety obligation into a call of the real
 // function, when every parameter is an integer or a boolean and the function has no receiver: the model's
 // parameter values are the failing input, the oracle is "the call panics".
-func (r *CheckRun) modelReplay(a *AggObl) *ReplaySpec {
+func (r *CheckRun) modelReplay(a *AggObl, values map[string]string) *ReplaySpec {
 	o := a.failing
-	if o == nil || o.Kind != "safety" || a.failVC == nil || a.failVC.fn == nil || o.Model == "" {
+	if o == nil || o.Kind != "safety" || a.failVC == nil || a.failVC.fn == nil {
 		return nil
 	}
 	fn := a.failVC.fn
@@ -104,8 +102,23 @@ func (r *CheckRun) modelReplay(a *AggObl) *ReplaySpec {
 	for i := 0; i < fn.Signature.Params().Len(); i++ {
 		p := fn.Signature.Params().At(i)
 		b, ok := types.Unalias(p.Type()).Underlying().(*types.Basic)
-		if !ok || b.Info()&(types.IsInteger|types.IsBoolean) == 0 {
+		if !ok || b.Info()&(types.IsInteger|types.IsBoolean|types.IsString) == 0 {
 			return nil
+		}
+		if values != nil {
+			v, have := values[p.Name()]
+			if !have {
+				return nil
+			}
+			if _, isNamed := p.Type().(*types.Named); isNamed {
+				v = types.TypeString(p.Type(), func(pk *types.Package) string { return "" }) + "(" + v + ")"
+			}
+			args = append(args, v)
+			continue
+		}
+		if b.Info()&types.IsString != 0 {
+			args = append(args, `""`)
+			continue
 		}
 		re := regexp.MustCompile(`\(define-fun \|?p_` + regexp.QuoteMeta(p.Name()) + `!\d+\|? \(\) (?:Int|Bool) (\(- \d+\)|[^() ]+)\)`)
 		m := re.FindStringSubmatch(text)
@@ -176,19 +189,68 @@ func dropQuantifiers(script string) string {
 	return b.String()
 }
 
-// candidateModel asks z3 for a model of the failing obligation with quantified hypotheses dropped.
-func (r *CheckRun) candidateModel(a *AggObl) string {
-	if a.failing == nil || a.failVC == nil {
-		return ""
+// candidateValues asks z3 for a model of the failing obligation with quantified hypotheses dropped and returns
+// Go literals for the function's parameters (integers, booleans; strings as a string of the model's length).
+func (r *CheckRun) candidateValues(a *AggObl) map[string]string {
+	if a.failing == nil || a.failVC == nil || a.failVC.fn == nil {
+		return nil
 	}
-	script := dropQuantifiers(a.failVC.Standalone(a.failing, true))
+	vc := a.failVC
+	script := dropQuantifiers(vc.Standalone(a.failing, false))
+	var names []string
+	for i := 0; i < vc.fn.Signature.Params().Len(); i++ {
+		p := vc.fn.Signature.Params().At(i)
+		tv, ok := vc.params[p.Name()]
+		if !ok {
+			return nil
+		}
+		b, isB := types.Unalias(p.Type()).Underlying().(*types.Basic)
+		if !isB {
+			return nil
+		}
+		if b.Info()&types.IsString != 0 {
+			script += fmt.Sprintf("(get-value ((slen %s)))\n", tv.T)
+		} else {
+			script += fmt.Sprintf("(get-value (%s))\n", tv.T)
+		}
+		names = append(names, p.Name())
+	}
 	f := filepath.Join(r.Work, "candidate.smt2")
 	if os.WriteFile(f, []byte(script), 0o644) != nil {
-		return ""
+		return nil
 	}
 	res := runSolver(context.Background(), solvers[0], f, 5000, false, 9*time.Second)
 	if res.err != nil || len(res.lines) == 0 || res.lines[0] != "sat" {
-		return ""
+		return nil
 	}
-	return res.raw
+	// one "((term value))" line per parameter after the verdict
+	var vlines []string
+	for _, l := range strings.Split(res.raw, "\n") {
+		if l = strings.TrimSpace(l); strings.HasPrefix(l, "((") {
+			vlines = append(vlines, l)
+		}
+	}
+	if len(vlines) != len(names) {
+		return nil
+	}
+	valRe := regexp.MustCompile(`\(\(.* (\(- \d+\)|[^() ]+)\)\)\s*$`)
+	out := map[string]string{}
+	for i, n := range names {
+		m := valRe.FindStringSubmatch(vlines[i])
+		if m == nil {
+			return nil
+		}
+		v := strings.ReplaceAll(strings.Trim(m[1], "()"), "- ", "-")
+		p := vc.fn.Signature.Params().At(i)
+		if b := types.Unalias(p.Type()).Underlying().(*types.Basic); b.Info()&types.IsString != 0 {
+			var k int
+			fmt.Sscan(v, &k)
+			if k < 0 || k > 1<<16 {
+				return nil
+			}
+			v = fmt.Sprintf("%q", strings.Repeat("a", k))
+		}
+		out[n] = v
+	}
+	return out
 }
